@@ -33,6 +33,12 @@ CLAIMED = {
          "ms_shipped_not_zero_at_zero (known finding F6, pinned by a baseline test); the model is compared with all 8 classes/aliases on the real grid with bit-exact masks; "
          "published relations and purity/element-wise probes are evaluated on the implementation.",
          "4 C09", "Lean 4 proof (algebraic laws, exp inequalities) + differential correspondence"),
+ 'C10': ("Lean theorems about the potential model: hardSphere/exponential/hclj_def, hard_core_set (one common core set {r <= sigma}), lj_def, lj_zero_beyond_cut, "
+         "lj_cut_inside, lj_shifted_zero_at_cut, lj_shifted_continuous (ContinuousOn (0,inf)), wca_inside (= 4 eps ((sigma/r)^6 - 1/2)^2), wca_nonneg, wca_zero_beyond, "
+         "wca_continuous, contact_in_core_exact_real, and for the contact rule the negation witness contact_rule_exact_fails next to contact_in_core_tol (known finding F7); "
+         "the model is compared with the five classes on real grids with bit-exact masks; documented u(r), cut/continuity/sign, sigma defaulting through createPRISM and the "
+         "contact classification for sigma = every multiple of dr are evaluated on the implementation.",
+         "4 C10", "Lean 4 proof (piecewise definitions, continuity, algebra) + differential correspondence"),
 }
 NA = {}
 def main():
